@@ -1,6 +1,11 @@
 package gluon
 
-import "github.com/ProtonMail/gluon/db"
+import (
+	"context"
+
+	"github.com/ProtonMail/gluon/db"
+	"github.com/ProtonMail/gluon/internal/state"
+)
 
 // VerifDefaultDBClientInterface returns the db.ClientInterface a server uses when no
 // WithDBClient option is given ("whatever ships"): taken from the server's own builder.
@@ -11,4 +16,11 @@ func VerifDefaultDBClientInterface() db.ClientInterface {
 		panic(err)
 	}
 	return b.dbCI
+}
+
+// VerifStateIDFromContext returns the id of the session state a command handler's context
+// belongs to (ids are handed out in the order the sessions were created).
+func VerifStateIDFromContext(ctx context.Context) (int64, bool) {
+	id, ok := state.GetStateIDFromContext(ctx)
+	return int64(id), ok
 }
